@@ -2287,6 +2287,10 @@ class Release(_multivalued):
         for key in self._multivalued_fields:
             if key not in self:
                 continue
+            if hasattr(self[key], 'keys'):
+                # Not multi-line -- don't need to compute the field length for
+                # this one
+                continue
             length = self._get_size_field_length(key)
             fixed_field_lengths[key] = {"size": length}
         return fixed_field_lengths
